@@ -654,7 +654,8 @@ PROPS = {
              "canary listeners on this machine's non-global addresses that no spelling, literal or as a name, may reach; "
              "a case is non-trivial/distinct by its query line"
              " How a refusal is reported (suite c10real, shared with C10): CONNECT, and plain-HTTP GET / POST whose authority spells the port out or leaves it out, to 19 literals and 9 scripted names x both policies x IPv6 on/off through the real direct forwarder: status, X-Warning code and X-Adguard-Vpn-Error (which must name the request's authority) against the C03 decision carried through the generated tables"
-             " Canaries also sit second in the answer of names whose first address is global but unreachable ([ff0e::1234], 8.8.8.8, 2606:4700:4700::1111): the failed attempt is not followed by an unchecked one",
+             " Canaries also sit second in the answer of names whose first address is global but unreachable ([ff0e::1234], 8.8.8.8, 2606:4700:4700::1111): the failed attempt is not followed by an unchecked one"
+             " The two policy switches as a settings file gives them (written out both ways, and left out: the documented defaults are private networks disallowed, IPv6 available) x every pool address through the real forwarder",
         explanation="theorems v4_exact, v6_unicast_exact, v6_mapped_exact, connect_only_global, global_*_never_refused about "
                     "TT/Model/Ip.lean; model tied to lib/src/net_utils.rs + tcp_forwarder.rs by exhaustive/differential runs",
         trusted=["std::net::Ipv4Addr/Ipv6Addr predicates as transcribed (tied by the exhaustive sweep)",
@@ -669,7 +670,8 @@ PROPS = {
         rule="record streams of 1-4 records (valid, zero-length name/payload, declared length < 37, length < header+name, non-UTF-8 "
              "name, too large, largest accepted, truncated tail; IPv4/IPv6 endpoints) decoded by the real Decoder behind the real "
              "DatagramDecoder::read under every 1-cut, byte-at-a-time, sampled (thorough: all, for short streams) 2-/3-cut "
-             "segmentations; encoder on random datagrams; distinct by query line",
+             "segmentations; encoder on random datagrams; distinct by query line"
+             " Encoder also on the largest datagrams a socket delivers: payloads of 9000, 65470 ... 65473, 65500, 65506, 65507 bytes (around the decoder's client-side limit, which is not the encoder's)",
         explanation="theorem decode_segmentation: chunked machine = independent record-level decoder on the concatenation, for all "
                     "chunk lists; spec_decode_encode: round trip; inv_step/inv_buffer_bounded: bounded buffering, no panic",
         trusted=["std::str::from_utf8 as transcribed in TT/Model/Utf8.lean (tied by the bad/good name corpus)"],
@@ -1061,7 +1063,8 @@ PROPS = {
              "large (with a 6000-byte window the dropping sink may omit whole datagrams); outbound_udp_sockets follows the flows and "
              "returns to zero; a dead-port flow does not stop the others"
              " One reply in five is 0, 1 or 2 bytes long (an empty datagram is a datagram: relayed, and the flow stays)"
-             " One live server is on [::1] and every second client source label is IPv6 (direct forwarder; the SOCKS5 relay of the harness is IPv4-only)",
+             " One live server is on [::1] and every second client source label is IPv6 (direct forwarder; the SOCKS5 relay of the harness is IPv4-only)"
+             " One reply in twelve is 65000 or 65497 bytes long",
         explanation="theorems sent_to_own_destination, datagram_step_output, reply_labelled_with_own_flow, reply_delivered_on_live_flow, "
                     "tables_coupled, sockets_from_history, idle_flow_released, tick_expires_all_idle, fresh_flow_survives_advance, "
                     "tick_period, dns_flow_released_when_answered, dns_flow_kept_while_pending, dns_query_counts, "
